@@ -941,6 +941,272 @@ def linalg_stream(ctx, cirq, inputs1, inputs2, checks):
 
 
 # =====================================================================================================
+# Stream 6: three-qubit, Shannon, multi-controlled, state preparation, Clifford tableau, CPhase -> FSim
+# =====================================================================================================
+ROUTINES.update({
+    'three_qubit_matrix_to_operations': 'docstring: operations for a 3-qubit unitary (an operation list: up to phase) made of CZ, CNOT and single-qubit gates; atol = "limit on the amount of absolute error": residual <= atol; the cited algorithm (Shende et al.) uses at most 20 CZ/CNOT, which is what Cirq\'s own test asserts: every multi-qubit gate must be CZ or CNOT and there are at most 20.',
+    'quantum_shannon_decomposition': 'docstring: 1- and 2-qubit gates and GlobalPhase "preserving global phase": compared EXACTLY; two-qubit gates from {CNOT, CZ}; the docstring warns that accuracy depends on np.linalg.eig and states no bound: atol 1e-8 x 10 = 1e-7; count: the Shende formula (23/48)4^n - (3/2)2^n + 4/3 (3, 20, 100 for n = 2, 3, 4) of the cited algorithm.',
+    'decompose_multi_controlled_rotation': 'docstring: equivalent to MatrixGate(matrix).on(target).controlled_by(*controls) (a controlled gate: compared EXACTLY), exclusively 1-qubit, CNOT and CCNOT gates; no tolerance stated: 1e-7.',
+    'decompose_multi_controlled_x': 'docstring: multi-controlled X, free qubits end in their initial state (compared EXACTLY with C^n X (x) I), exclusively 1-qubit, CNOT and CCNOT gates; 1e-7.',
+    'prepare_two_qubit_state_using_cz': 'docstring: prepares the state from |00> with at most one CZ: exactly 1 for entangled states, 0 for product states (checked where the smaller Schmidt coefficient is 0 or > 1e-6); a state: up to phase; no tolerance stated: 1e-7.',
+    'prepare_two_qubit_state_using_sqrt_iswap': 'as above with one SQRT_ISWAP (SQRT_ISWAP_INV by default, use_sqrt_iswap_inv).',
+    'prepare_two_qubit_state_using_iswap': 'as above with one ISWAP (ISWAP_INV with use_iswap_inv).',
+    'decompose_clifford_tableau_to_operations': 'docstring: one/two-qubit operations that reconstruct the same Clifford tableau: the unitary of the returned operations equals the unitary of the circuit the tableau was built from, up to phase (a tableau has none); exact arithmetic: 1e-8.',
+    'decompose_cphase_into_two_fsim': 'docstring: exactly two copies of the FSim gate and single-qubit rotations, "accounts for the global phase": compared EXACTLY; feasible iff the exponent lies in compute_cphase_exponents_for_fsim_decomposition (ValueError otherwise); no tolerance on the result stated: 1e-7.',
+})
+
+
+def shende_count(n):
+    return round((23 / 48) * 4 ** n - 1.5 * 2 ** n + 4 / 3)
+
+
+def is_cx_or_cz(cirq):
+    return lambda op: isinstance(op.gate, (cirq.CZPowGate, cirq.CXPowGate)) and abs(float(op.gate.exponent) - 1) < 1e-12 and len(op.qubits) == 2
+
+
+def run_nq(ctx, cirq, mods, conv, checks, routine, opts, name, u):
+    u = np.asarray(u, dtype=complex)
+    n = int(round(math.log2(u.shape[0])))
+    q = cirq.LineQubit.range(n)
+    nt = 'identity' not in name
+    rep = dict(kind='nq', routine=routine, opts=opts, input_class=name, matrix=cmat(u))
+    try:
+        if routine == 'three_qubit_matrix_to_operations':
+            ops = cirq.three_qubit_matrix_to_operations(q[0], q[1], q[2], u)
+            add_ops_checks(ctx, conv, checks, routine, opts, name, u, ops, q, 1e-8, True, (20, False, is_cx_or_cz(cirq), 'at most 20 CZ/CNOT and no other multi-qubit gate'), nt)
+        elif routine == 'quantum_shannon_decomposition':
+            ops = list(cirq.quantum_shannon_decomposition(q, u))
+            add_ops_checks(ctx, conv, checks, routine, opts, name, u, ops, q, 1e-7, False,
+                           (shende_count(n), False, is_cx_or_cz(cirq), f'at most {shende_count(n)} CZ/CNOT for {n} qubits and no other multi-qubit gate'), nt)
+        else:
+            raise KeyError(routine)
+    except KeyError:
+        raise
+    except Exception as e:
+        ctx.violation(f'{routine}:raises:{cls(name)}', f'{routine} raised {type(e).__name__}: {e} on {name}', rep)
+
+
+def controlled_matrix(u, nc, nf=0):
+    d = 2 ** (nc + 1)
+    m = np.eye(d, dtype=complex)
+    m[d - 2:, d - 2:] = u
+    return np.kron(m, np.eye(2 ** nf))
+
+
+def run_ctrl(ctx, cirq, mods, conv, checks, routine, opts, name, u):
+    nc, nf = opts['controls'], opts.get('free', 0)
+    cs = cirq.LineQubit.range(nc)
+    t = cirq.LineQubit(nc)
+    fr = [cirq.LineQubit(nc + 1 + i) for i in range(nf)]
+    allq = cs + [t] + fr
+    rep = dict(kind='ctrl', routine=routine, opts=opts, input_class=name, matrix=cmat(u))
+    native = lambda op: (isinstance(op.gate, cirq.CXPowGate) and len(op.qubits) == 2 or isinstance(op.gate, cirq.CCXPowGate) and len(op.qubits) == 3) and abs(float(op.gate.exponent) - 1) < 1e-12
+    try:
+        if routine == 'decompose_multi_controlled_rotation':
+            ops = cirq.decompose_multi_controlled_rotation(np.asarray(u), cs, t)
+        else:
+            ops = cirq.decompose_multi_controlled_x(cs, t, fr)
+        add_ops_checks(ctx, conv, checks, routine, opts, name, controlled_matrix(u, nc, nf), ops, allq, 1e-7, False,
+                       (10 ** 6, False, native, 'exclusively 1-qubit, CNOT and CCNOT gates'), True, extra=dict(sig_prefix=f'c{nc}f{nf}:'))
+    except Exception as e:
+        ctx.violation(f'{routine}:raises:c{nc}f{nf}:{cls(name)}', f'{routine}({opts}) raised {type(e).__name__}: {e} on {name}', rep)
+
+
+def schmidt_min(psi):
+    return float(np.linalg.svd(np.asarray(psi).reshape(2, 2), compute_uv=False)[1])
+
+
+def run_prep(ctx, cirq, mods, conv, checks, routine, opts, name, psi):
+    psi = np.asarray(psi, dtype=complex)
+    q = cirq.LineQubit.range(2)
+    rep = dict(kind='prep', routine=routine, opts=opts, input_class=name, state=[[float(x.real), float(x.imag)] for x in psi])
+    try:
+        f = getattr(cirq, routine)
+        ops = list(cirq.flatten_to_ops(f(q[0], q[1], psi, **opts)))
+        term = conv.ops(ops, q)
+    except Exception as e:
+        ctx.violation(f'{routine}:raises:{cls(name)}', f'{routine}({opts}) raised {type(e).__name__}: {e} on {name}', rep)
+        return
+    if routine.endswith('_cz'):
+        native = lambda op: isinstance(op.gate, cirq.CZPowGate) and abs(float(op.gate.exponent) - 1) < 1e-12
+    elif routine.endswith('sqrt_iswap'):
+        ex = -0.5 if opts.get('use_sqrt_iswap_inv', True) else 0.5
+        native = lambda op: isinstance(op.gate, cirq.ISwapPowGate) and abs(float(op.gate.exponent) - ex) < 1e-12
+    else:
+        ex = -1 if opts.get('use_iswap_inv', False) else 1
+        native = lambda op: isinstance(op.gate, cirq.ISwapPowGate) and abs(float(op.gate.exponent) - ex) < 1e-12
+    sm = schmidt_min(psi / np.linalg.norm(psi))
+    stream = routine + (f'[{",".join(f"{k}={v}" for k, v in opts.items())}]' if opts else '')
+    ctx.count(stream, [name, rep['state']], True, sample=dict(input_class=name, operations=[str(o) for o in ops], schmidt_min=sm))
+    checks.append((stream, f'prepares_phase_f {fl(1e-7)} [2; 2]%nat {term} {gates.fvec(psi / np.linalg.norm(psi))}',
+                   f'{stream} on {name}: the prepared state differs from the requested one (up to phase) by more than 1e-7', dict(rep, signature=f'{routine}:reconstruct:{cls(name)}')))
+    if sm < 1e-12:
+        cnt = f'exact_count {opdescs(ops, native)} 0'
+        text = 'a product state must be prepared without entangling gate'
+    elif sm > 1e-6:
+        cnt = f'exact_count {opdescs(ops, native)} 1'
+        text = 'an entangled state must be prepared with exactly one entangling gate'
+    else:
+        cnt = f'within_count {opdescs(ops, native)} 1'
+        text = 'at most one entangling gate'
+    checks.append((stream + ':count', cnt, f'{stream} on {name}: {text}; got {[str(o) for o in ops if len(o.qubits) > 1]}', dict(rep, signature=f'{routine}:count:{cls(name)}')))
+    ctx.count(stream + ':count', [name, rep['state']], True)
+
+
+CLIFF_1Q = ['H', 'S', 'X', 'Y', 'Z', 'S**-1', 'X**0.5', 'Y**-0.5']
+CLIFF_2Q = ['CNOT', 'CZ', 'SWAP']
+
+
+def cliff_ops(cirq, spec, qs):
+    out = []
+    for g, idx in spec:
+        base = {'H': cirq.H, 'S': cirq.S, 'X': cirq.X, 'Y': cirq.Y, 'Z': cirq.Z, 'S**-1': cirq.S ** -1, 'X**0.5': cirq.X ** 0.5, 'Y**-0.5': cirq.Y ** -0.5,
+                'CNOT': cirq.CNOT, 'CZ': cirq.CZ, 'SWAP': cirq.SWAP}[g]
+        out.append(base.on(*[qs[i] for i in idx]))
+    return out
+
+
+def run_cliff(ctx, cirq, mods, conv, checks, name, n, spec):
+    routine = 'decompose_clifford_tableau_to_operations'
+    qs = cirq.LineQubit.range(n)
+    rep = dict(kind='cliff', routine=routine, input_class=name, n=n, spec=[[g, list(idx)] for g, idx in spec])
+    try:
+        orig = cliff_ops(cirq, spec, qs)
+        if orig:
+            tab = cirq.CliffordGate.from_op_list(orig, qs).clifford_tableau
+        else:
+            tab = cirq.CliffordTableau(n)
+        ops = cirq.decompose_clifford_tableau_to_operations(qs, tab)
+        t1, t0 = conv.ops(ops, qs), conv.ops(orig, qs)
+    except Exception as e:
+        ctx.violation(f'{routine}:raises:{name}', f'{routine} raised {type(e).__name__}: {e} on the tableau of {spec}', rep)
+        return
+    ctx.count(routine, [n, rep['spec']], bool(spec), sample=dict(circuit=[f'{g}{list(i)}' for g, i in spec][:10], returned=[str(o) for o in ops][:10]))
+    sh = gates.nlist([2] * n)
+    checks.append((routine, f'fcll_close_phase {fl(1e-8)} (circ_unitary FOps {sh} {t1}) (circ_unitary FOps {sh} {t0}) && '
+                   f'within_count {opdescs(ops, lambda op: len(op.qubits) == 2)} 1000000',
+                   f'{routine}: the operations returned for the tableau of {[f"{g}{list(i)}" for g, i in spec]} have a different unitary (up to phase) or use gates on more than two qubits',
+                   dict(rep, signature=f'{routine}:reconstruct:{name}')))
+
+
+def run_cphase(ctx, cirq, mods, conv, checks, name, theta, phi, exponent, feasible):
+    routine = 'decompose_cphase_into_two_fsim'
+    q = cirq.LineQubit.range(2)
+    fg = cirq.FSimGate(theta, phi)
+    rep = dict(kind='cphase', routine=routine, input_class=name, theta=theta, phi=phi, exponent=exponent, feasible=feasible)
+    try:
+        ops = list(cirq.flatten_to_ops(cirq.decompose_cphase_into_two_fsim(cirq.CZPowGate(exponent=exponent), fsim_gate=fg, qubits=q)))
+    except ValueError as e:
+        ctx.count(routine + ':ValueError', [theta, phi, exponent], True)
+        if feasible:
+            ctx.violation(f'{routine}:raises:{name}', f'{routine}(CZ**{exponent}, FSim({theta},{phi})) raised ValueError({e}) although the exponent lies inside '
+                          'compute_cphase_exponents_for_fsim_decomposition', rep)
+        return
+    except Exception as e:
+        ctx.violation(f'{routine}:raises:{name}', f'{routine}(CZ**{exponent}, FSim({theta},{phi})) raised {type(e).__name__}: {e}', rep)
+        return
+    u = np.diag([1, 1, 1, cmath.exp(1j * math.pi * exponent)])
+    add_ops_checks(ctx, conv, checks, routine, dict(fsim=f'FSim({theta:.4g},{phi:.4g})'), name, u, ops, q, 1e-7, False,
+                   (2, True, lambda op: op.gate == fg, 'exactly two copies of the FSim gate'), True, extra=dict(theta=theta, phi=phi, exponent=exponent, feasible=feasible))
+
+
+def nq_stream(ctx, cirq, mods, conv, inputs1, inputs2, checks, scale):
+    rng = ctx.rng
+    ones = dict(inputs1)
+    twos = {n: u for n, u, _ in inputs2}
+    # ---- three qubits / Shannon ----
+    k3 = lambda a, b: np.kron(a, b)
+    named3 = [('identity', np.eye(8)), ('CCZ', cirq.unitary(cirq.CCZ)), ('CCX', cirq.unitary(cirq.CCX)), ('CSWAP', cirq.unitary(cirq.CSWAP)),
+              ('QFT3', cirq.unitary(cirq.qft(*cirq.LineQubit.range(3)))), ('H(x)CNOT', k3(ones['H'], twos['CNOT'])), ('CZ(x)T', k3(twos['CZ'], ones['T'])),
+              ('local:HST', k3(k3(ones['H'], ones['S']), ones['T'])), ('diag8', np.diag(np.exp(1j * np.arange(8) * 0.37))), ('-identity', -np.eye(8)),
+              ('SWAP(x)X', k3(twos['SWAP'], ones['X'])), ('I(x)sqrt-iswap', k3(ones['identity'], twos['SQRT_ISWAP'])),
+              ('CCZ**0.5', cirq.unitary(cirq.CCZ ** 0.5)), ('C-iswap', controlled_matrix(np.eye(2), 0) if False else np.block([[np.eye(4), np.zeros((4, 4))], [np.zeros((4, 4)), twos['ISWAP']]]))]
+    for i in range(3 * scale):
+        named3.append(('random:haar8', gates.random_unitary(rng, 8)))
+    for name, u in named3:
+        run_nq(ctx, cirq, mods, conv, checks, 'three_qubit_matrix_to_operations', {}, name, u)
+        run_nq(ctx, cirq, mods, conv, checks, 'quantum_shannon_decomposition', {}, '3q:' + name, u)
+    for name in ['identity', 'X', 'H', 'T', 'ry(pi)+1e-09*rz(0.7)', 'clifford#7', 'rz(2pi)-1e-08']:
+        run_nq(ctx, cirq, mods, conv, checks, 'quantum_shannon_decomposition', {}, '1q:' + name, ones[name])
+    for name in ['identity', 'CNOT', 'CZ', 'ISWAP', 'SWAP', 'SQRT_ISWAP', 'XX', 'ZZ**0.25', 'CH', 'local:haar#0', 'weyl:vertex:iswap:x+1e-08', 'weyl:edge:cnot-swap:x+1e-09',
+                 'weyl:interior', 'weyl+locals:face:x=pi/4,z<0', 'weyl+locals:vertex:swap', 'degenerate:diag(1,1,-1,-1)']:
+        run_nq(ctx, cirq, mods, conv, checks, 'quantum_shannon_decomposition', {}, '2q:' + name, twos[name])
+    for i in range(2 * scale):
+        run_nq(ctx, cirq, mods, conv, checks, 'quantum_shannon_decomposition', {}, 'random:haar4', gates.random_unitary(rng, 4))
+    for name, u in [('4q:identity', np.eye(16)), ('4q:CNOT(x)ISWAP', np.kron(twos['CNOT'], twos['ISWAP'])), ('4q:random:haar16', gates.random_unitary(rng, 16))]:
+        run_nq(ctx, cirq, mods, conv, checks, 'quantum_shannon_decomposition', {}, name, u)
+    # ---- multi-controlled ----
+    mats = ['X', 'Z', 'H', 'T', 'identity', '-identity', 'i*identity', 'rx(pi/2)', 'ry(0.3)', 'rz(pi)', 'rx(0)+1e-09', 'clifford#11', 'X*phase', 'Y**0.5']
+    for k, nm in enumerate(mats):
+        for nc in ([0, 1, 2, 3, 4] if k % 4 == 0 else [k % 3 + 1, 3]):
+            run_ctrl(ctx, cirq, mods, conv, checks, 'decompose_multi_controlled_rotation', dict(controls=nc), nm, ones[nm])
+    for i in range(3 * scale):
+        u = gates.random_unitary(rng, 2)
+        run_ctrl(ctx, cirq, mods, conv, checks, 'decompose_multi_controlled_rotation', dict(controls=rng.choice([1, 2, 3, 4])), 'random:haar', u)
+        run_ctrl(ctx, cirq, mods, conv, checks, 'decompose_multi_controlled_rotation', dict(controls=rng.choice([2, 3, 4])), 'random:su2', su2(u))
+    for nc in range(0, 5):
+        for nf in range(0, 3):
+            if nc + 1 + nf <= 5:
+                run_ctrl(ctx, cirq, mods, conv, checks, 'decompose_multi_controlled_x', dict(controls=nc, free=nf), 'X', ones['X'])
+    # ---- state preparation ----
+    b = math.sqrt(0.5)
+    states = [('|00>', [1, 0, 0, 0]), ('|01>', [0, 1, 0, 0]), ('|10>', [0, 0, 1, 0]), ('|11>', [0, 0, 0, 1]), ('|++>', [0.5] * 4), ('bell:phi+', [b, 0, 0, b]), ('bell:phi-', [b, 0, 0, -b]),
+              ('bell:psi+', [0, b, b, 0]), ('bell:psi-', [0, b, -b, 0]), ('bell:i', [b, 0, 0, 1j * b]), ('0.6|00>+0.8i|11>', [0.6, 0, 0, 0.8j]), ('|0>(x)|+i>', [b, 1j * b, 0, 0]),
+              ('-|01>', [0, -1, 0, 0]), ('i|11>', [0, 0, 0, 1j])]
+    for d in (1e-10, 1e-9, 1e-8, 1e-7, 1e-3):
+        states.append((f'cos|00>+sin|11>:{d:.0e}', [math.cos(d), 0, 0, math.sin(d)]))
+        states.append((f'bell:phi+:{d:+.0e}', [math.cos(PI4 + d), 0, 0, math.sin(PI4 + d)]))
+    for nm, psi in list(states):
+        r = name_rng('prep:' + nm)
+        states.append((nm + '+locals', local_pair(r, 'haar') @ np.asarray(psi, dtype=complex)))
+    for i in range(6):
+        r = name_rng(f'prod{i}')
+        states.append((f'product#{i}', np.kron(gates.random_unitary(r, 2)[:, 0], gates.random_unitary(r, 2)[:, 0])))
+    for i in range(6 * scale):
+        states.append(('random:haar', gates.random_unitary(rng, 4)[:, 0]))
+    for k, (nm, psi) in enumerate(states):
+        run_prep(ctx, cirq, mods, conv, checks, 'prepare_two_qubit_state_using_cz', {}, nm, psi)
+        run_prep(ctx, cirq, mods, conv, checks, 'prepare_two_qubit_state_using_sqrt_iswap', dict(use_sqrt_iswap_inv=k % 2 == 0), nm, psi)
+        run_prep(ctx, cirq, mods, conv, checks, 'prepare_two_qubit_state_using_iswap', dict(use_iswap_inv=k % 3 == 0), nm, psi)
+    # ---- Clifford tableaux ----
+    run_cliff(ctx, cirq, mods, conv, checks, 'identity1', 1, [])
+    run_cliff(ctx, cirq, mods, conv, checks, 'identity3', 3, [])
+    for g in CLIFF_1Q:
+        run_cliff(ctx, cirq, mods, conv, checks, 'single:' + g, 1, [(g, (0,))])
+    for g in CLIFF_2Q:
+        run_cliff(ctx, cirq, mods, conv, checks, 'single:' + g, 2, [(g, (0, 1))])
+        run_cliff(ctx, cirq, mods, conv, checks, 'single:' + g + ':reversed', 2, [(g, (1, 0))])
+    for i in range(40 * scale):
+        n = rng.choice([1, 2, 2, 3, 3, 4])
+        spec = []
+        for _ in range(rng.randint(1, 4 * n + 2)):
+            if n >= 2 and rng.random() < 0.45:
+                spec.append((rng.choice(CLIFF_2Q), tuple(rng.sample(range(n), 2))))
+            else:
+                spec.append((rng.choice(CLIFF_1Q), (rng.randrange(n),)))
+        run_cliff(ctx, cirq, mods, conv, checks, f'random{n}', n, spec)
+    # ---- CPhase into two FSim ----
+    fs = [('SYC', math.pi / 2, math.pi / 6), ('FSim(1.3,0.4)', 1.3, 0.4), ('FSim(pi/2,pi/4)', math.pi / 2, math.pi / 4), ('FSim(-pi/2,pi/6)', -math.pi / 2, math.pi / 6),
+          ('FSim(pi/2-0.05,0.6)', math.pi / 2 - 0.05, 0.6), ('FSim(0.4,2.5)', 0.4, 2.5)]
+    for fname, th, ph in fs:
+        try:
+            ivs = cirq.compute_cphase_exponents_for_fsim_decomposition(cirq.FSimGate(th, ph))
+        except Exception as e:
+            ctx.violation(f'compute_cphase_exponents_for_fsim_decomposition:raises:{fname}', f'raised {type(e).__name__}: {e}', dict(kind='cphase', theta=th, phi=ph, exponent=0, feasible=False, input_class=fname))
+            continue
+        pts = []
+        for lo, hi in ivs:
+            lo, hi = float(lo), float(hi)
+            mid = (lo + hi) / 2
+            pts += [(mid, True, 'mid'), (lo + 1e-6, True, 'lo+1e-6'), (hi - 1e-6, True, 'hi-1e-6'), (lo + (hi - lo) * 0.25, True, 'quarter'), (-mid, True, '-mid'), (mid + 2, True, 'mid+2'),
+                    (lo - 0.01, None, 'lo-0.01'), (hi + 0.01, None, 'hi+0.01')]
+        pts += [(1.0, None, '1'), (0.5, None, '0.5'), (-0.25, None, '-0.25'), (0.0, None, '0')]
+        for e, feas, tag in pts:
+            inside = any(lo - 1e-9 <= (abs(((e + 1) % 2) - 1)) <= hi + 1e-9 for lo, hi in ivs)
+            run_cphase(ctx, cirq, mods, conv, checks, f'{fname}:{tag}', th, ph, float(e), bool(feas) if feas is not None else False and inside)
+
+
+# =====================================================================================================
 def evaluate(ctx, checks):
     SH = 150
 
@@ -996,6 +1262,7 @@ def run(ctx):
     inputs1 = one_qubit_inputs(ctx, cirq, 30 * n)
     one_qubit_stream(ctx, cirq, mods, conv, inputs1, checks)
     linalg_stream(ctx, cirq, inputs1, inputs, checks)
+    nq_stream(ctx, cirq, mods, conv, inputs1, inputs, checks, n)
     ctx.cov['operations_entering_through_cirq_unitary'] = dict(conv.via_unitary)
     evaluate(ctx, checks)
 
@@ -1017,6 +1284,16 @@ def replay(ctx, data):
         run_1q(ctx, cirq, mods, conv, checks, data['routine'], data['opts'], data['input_class'], from_cmat(data['matrix']))
     elif kind == 'linalg':
         run_la(ctx, cirq, checks, data['routine'], data['input_class'], from_cmat(data['matrix']), from_cmat(data['matrix2']) if data.get('matrix2') else None)
+    elif kind == 'nq':
+        run_nq(ctx, cirq, mods, conv, checks, data['routine'], data['opts'], data['input_class'], from_cmat(data['matrix']))
+    elif kind == 'ctrl':
+        run_ctrl(ctx, cirq, mods, conv, checks, data['routine'], data['opts'], data['input_class'], from_cmat(data['matrix']))
+    elif kind == 'prep':
+        run_prep(ctx, cirq, mods, conv, checks, data['routine'], data['opts'], data['input_class'], np.array([complex(a, b) for a, b in data['state']]))
+    elif kind == 'cliff':
+        run_cliff(ctx, cirq, mods, conv, checks, data['input_class'], data['n'], [(g, tuple(i)) for g, i in data['spec']])
+    elif kind == 'cphase' or (kind == 'synth' and data['routine'] == 'decompose_cphase_into_two_fsim'):
+        run_cphase(ctx, cirq, mods, conv, checks, data['input_class'], data['theta'], data['phi'], data['exponent'], data['feasible'])
     elif kind == 'synth' and data['routine'] in ROUTINES_2Q:
         run_2q(ctx, cirq, mods, conv, checks, data['routine'], data['opts'], data['input_class'], from_cmat(data['matrix']), data.get('hint'))
     else:
